@@ -67,15 +67,13 @@ func RunSet(id string, opts GlobalOptions) error {
 			return err
 		}
 		agentID := opts.AgentID
-		if err := applySetUpdates(dir, opts, id, updates, agentID, opts.JSON); err != nil {
+		var view committedView
+		if err := applySetUpdates(dir, opts, id, updates, agentID, opts.JSON, &view); err != nil {
 			return err
 		}
 
 		if opts.JSON {
-			graph, err := loadGraph(dir)
-			if err != nil {
-				return err
-			}
+			graph := view.graph
 			task := graph.Tasks[id]
 			if task == nil {
 				return fmt.Errorf("unknown task id %s", id)
@@ -136,15 +134,13 @@ func RunSet(id string, opts GlobalOptions) error {
 			return err
 		}
 		agentID := opts.AgentID
-		if err := applySetUpdates(dir, opts, id, updates, agentID, opts.JSON); err != nil {
+		var view committedView
+		if err := applySetUpdates(dir, opts, id, updates, agentID, opts.JSON, &view); err != nil {
 			return err
 		}
 
 		if opts.JSON {
-			graph, err := loadGraph(dir)
-			if err != nil {
-				return err
-			}
+			graph := view.graph
 			task := graph.Tasks[id]
 			if task == nil {
 				return fmt.Errorf("unknown task id %s", id)
@@ -192,15 +188,13 @@ func RunSet(id string, opts GlobalOptions) error {
 	}
 
 	agentID := opts.AgentID
-	if err := applySetUpdates(dir, opts, id, updates, agentID, opts.JSON); err != nil {
+	var view committedView
+	if err := applySetUpdates(dir, opts, id, updates, agentID, opts.JSON, &view); err != nil {
 		return err
 	}
 
 	if opts.JSON {
-		graph, err := loadGraph(dir)
-		if err != nil {
-			return err
-		}
+		graph := view.graph
 		task := graph.Tasks[id]
 		if task == nil {
 			return fmt.Errorf("unknown task id %s", id)
@@ -236,14 +230,12 @@ func RunClaim(id string, opts GlobalOptions) error {
 	if err != nil {
 		return err
 	}
-	if err := applySetUpdates(dir, opts, id, updates, agentID, true); err != nil {
+	var view committedView
+	if err := applySetUpdates(dir, opts, id, updates, agentID, true, &view); err != nil {
 		return err
 	}
 
-	graph, err := loadGraph(dir)
-	if err != nil {
-		return err
-	}
+	graph := view.graph
 	task := graph.Tasks[id]
 	if task == nil {
 		return errors.New("internal error: missing claimed task")
@@ -394,7 +386,26 @@ func buildUpdatedFields(input *TaskInput) []string {
 	return fields
 }
 
-func applySetUpdates(dir string, opts GlobalOptions, id string, updates map[string]string, agentID string, quiet bool) error {
+// committedView receives the graph as replayed under the write lock right after an update was
+// appended, so callers can report the committed state without a second, unlocked read (which a
+// concurrent writer such as prune could invalidate after the command has already taken effect).
+type committedView struct {
+	graph *Graph
+}
+
+func captureCommitted(dir string, view []*committedView) error {
+	if len(view) == 0 || view[0] == nil {
+		return nil
+	}
+	graph, err := loadGraph(dir)
+	if err != nil {
+		return err
+	}
+	view[0].graph = graph
+	return nil
+}
+
+func applySetUpdates(dir string, opts GlobalOptions, id string, updates map[string]string, agentID string, quiet bool, view ...*committedView) error {
 	lockPath := filepath.Join(dir, "lock")
 	eventsPath := getEventsPath(dir)
 
@@ -408,7 +419,7 @@ func applySetUpdates(dir string, opts GlobalOptions, id string, updates map[stri
 		if !hasSummary {
 			return errors.New("result.path requires result.summary=")
 		}
-		if err := writeResultEvent(dir, opts, id, resultSummary, resultPath); err != nil {
+		if err := writeResultEvent(dir, opts, id, resultSummary, resultPath, view...); err != nil {
 			return err
 		}
 		delete(updates, "result.path")
@@ -478,6 +489,9 @@ func applySetUpdates(dir string, opts GlobalOptions, id string, updates map[stri
 		}
 
 		if err := appendEvents(eventsPath, events); err != nil {
+			return err
+		}
+		if err := captureCommitted(dir, view); err != nil {
 			return err
 		}
 		if !quiet {
